@@ -22,6 +22,11 @@ func init() {
 }
 
 func runC18(p *Prog, r *Report) {
+	if want("C18.15") {
+		// (shared with C10/C09) a read-only DB rejects writes only if SetReadOnly never lets go of the
+		// write lock it took: the token contracts include "success return ⇒ lock parked with the handler"
+		ruleTokenContracts(p, r, "C18.15", 12)
+	}
 	if want("C18.14") {
 		ruleOptGetters(p, r, "C18.14", "read-only and open contracts", "Options.GetReadOnly", "Options.GetErrorIfExist", "Options.GetErrorIfMissing")
 	}
